@@ -27,7 +27,9 @@ META = {
 
 NAMES = ['x', 'm', 'b', 'q']              # deliberately not in alphabetical order
 RHO = [0.11, 0.23, 0.07, 0.31]
-DIAM = {'equal': [1.0, 1.0, 1.0, 1.0], 'unequal': [1.0, 1.4, 0.8, 1.2], 'unequal2': [0.7, 0.7, 1.9, 1.05]}
+DIAM = {'equal': [1.0, 1.0, 1.0, 1.0], 'unequal': [1.0, 1.4, 0.8, 1.2], 'unequal2': [0.7, 0.7, 1.9, 1.05],
+        # nearly equal diameters (the volume ratio differs from 1 by 1e-5: not 'equal') and diameters in a small length unit
+        'near': [1.0, 1.000003, 1.0000015, 0.999998], 'tiny': [2e-3, 3e-3, 2.5e-3, 1e-3]}
 CALLS = [('pair_correlation', None), ('pmf', None), ('structure_factor', True), ('structure_factor', False),
          ('second_virial', True), ('second_virial', False), ('chi', True), ('chi', False),
          ('spinodal_condition', True), ('spinodal_condition', False), ('solvation_potential', 'HNC'), ('solvation_potential', 'PY')]
@@ -503,6 +505,10 @@ def run(rec, tier, seed):
             for diam in ('equal', 'unequal'):
                 for fl in (['F', 'F', 'F'], ['R', 'R', 'F']):
                     cases.append({'kind': 'chiw', 'rank': n, 'pair': [i, j], 'diam': diam, 'flags': fl})
+            for diam in ('near', 'tiny'):
+                cases.append({'kind': 'chiw', 'rank': n, 'pair': [i, j], 'diam': diam, 'flags': ['F', 'F', 'F']})
+    for n, d, diam in itertools.product([2, 3], datas, ['near', 'tiny']):
+        cases.append({'kind': 'pop', 'rank': n, 'data': d, 'flags': ['F', 'F', 'F'], 'diam': diam, 'kT': 1.0})
     for s in ['mono', 'bin', 'ter', 'quat']:
         cases.append({'kind': 'solved', 'system': s})
     for n, kT in itertools.product(ranks, [1.0, 0.6, 1.7]):
